@@ -1,6 +1,6 @@
 #!/bin/bash
 # tools/verifyseed.sh Cxx — maintainer: confirm each seeded change in the scratch worktree /tmp/seed_Cxx
-# (demo passes pristine / fails patched; pinned test counts identical), then store it under /verif/seeded/Cxx-k/.
+# (demo passes pristine / fails patched; pinned test counts identical), then store it under /root/seeded_stash/Cxx-k/.
 P=$1
 W=/tmp/seed_$P
 T="tests/model tests/basic tests/internals tests/config tests/deps tests/cli"
@@ -17,9 +17,9 @@ for k in 1 2 3; do
   tm=$(PYTHONPATH=$W/src timeout 1500 /venv/bin/python -m pytest -q -p no:cacheprovider --timeout=900 --continue-on-collection-errors $T 2>&1 | tail -1)
   git checkout -q -- .
   echo "$P-$k demo pristine=[$dp] patched=[$dm] tests patched: $tm"
-  mkdir -p /verif/seeded/$P-$k
-  cp $d/patch.diff $d/demo.py /verif/seeded/$P-$k/
-  python3 - "$d/meta.json" "/verif/seeded/$P-$k/meta.json" "$dp" "$dm" "$base" "$tm" "$P" <<'PY'
+  mkdir -p /root/seeded_stash/$P-$k
+  cp $d/patch.diff $d/demo.py /root/seeded_stash/$P-$k/
+  python3 - "$d/meta.json" "/root/seeded_stash/$P-$k/meta.json" "$dp" "$dm" "$base" "$tm" "$P" <<'PY'
 import json, sys, re
 src, dst, dp, dm, base, tm, P = sys.argv[1:8]
 m = json.load(open(src))
